@@ -297,6 +297,10 @@ def observe(pd, req, fresh_model=True):
             pass                      # the first leg only creates history
         redefine(p, pd)
         p.forces, p.forces_inc = [], []
+        if req["q"] == "kM" and kind in ("offset", "mu", "geometry", "radius", "flags"):
+            # these aspects do not enter the laminate: the mass matrix is asked for directly after the change,
+            # without the stiffness call that would refresh the laminate object
+            req = dict(req, nok0=True)
     else:
         p = build_panel(pd, explicit_model=fresh_model, ctor=bool(req.get("ctor")))
     return execute(p, pd, req)
@@ -330,7 +334,8 @@ def execute(p, pd, req):
     elif q in ("fext", "static"):
         return observe_load(p, pd, req, kw)
     else:
-        p.calc_k0(silent=True)          # the documented order: the laminate is derived by calc_k0
+        if not req.get("nok0"):
+            p.calc_k0(silent=True)          # the documented order: the laminate is derived by calc_k0
         if q == "kM":
             M = p.calc_kM(silent=True, **kw) if not req.get("nofin") else _fin(p.calc_kM(silent=True, finalize=False, **kw))
         elif q == "kA":
@@ -453,9 +458,14 @@ def observe_nl(p, pd, req, kw):
     c = np.array([float(fr(v)) for v in req["c"]])
     c0 = c.copy()
     nx, ny = gauss_orders(pd, req)
-    p.calc_k0(silent=True)                # documented order: derives the laminate matrix F
-    F = np.array(p.F, dtype=float)
-    F0 = F.copy()
+    # the buckling analysis derives everything itself: asked directly (no stiffness call before it) when no table is passed
+    direct = bool(q == "kGc" and req.get("vialb") and not req["NL"] and not kw and not req.get("table")
+                  and not req.get("taper") and not req.get("dflt"))
+    F0 = None
+    if not direct:
+        p.calc_k0(silent=True)                # documented order: derives the laminate matrix F
+        F = np.array(p.F, dtype=float)
+        F0 = F.copy()
     Fn = None
     if req.get("table") or req.get("taper"):
         # per-point laminate table F(xi_i, eta_j) = (t0 + tx xi_i + ty eta_j) F at the rule's own Gauss points
@@ -487,7 +497,7 @@ def observe_nl(p, pd, req, kw):
     else:
         M = p.calc_kG0(c=c, nx=nx, ny=ny, Fnxny=Fn, NLgeom=bool(req["NL"]), silent=True, **k2)
         out = [[dyadic(v) for v in row] for row in M.toarray()]
-    ok = np.array_equal(c, c0) and np.array_equal(np.array(p.F, dtype=float), F0)     # caller inputs untouched
+    ok = np.array_equal(c, c0) and (F0 is None or np.array_equal(np.array(p.F, dtype=float), F0))     # caller inputs untouched
     if Fn is not None:
         ok = ok and np.array_equal(Fn, Fn0)
     return out, bool(ok)
@@ -497,22 +507,37 @@ def observe_load(p, pd, req, kw):
     q = req["q"]
     flt = lambda fs: [[float(fr(v)) for v in f] for f in fs]
     route = req.get("route", 0)
+    rows = req.get("rows", "list")
+    tables = None
     if route % 2 == 0:
-        p.forces = flt(req["forces"])
-        p.forces_inc = flt(req["forcesInc"])
+        if rows == "ndarray":              # rows of a float table (views), as list(table) gives
+            tables = (np.array(flt(req["forces"]), dtype=float).reshape(-1, 5), np.array(flt(req["forcesInc"]), dtype=float).reshape(-1, 5))
+            p.forces, p.forces_inc = list(tables[0]), list(tables[1])
+        elif rows == "tuple":
+            p.forces = [tuple(f) for f in flt(req["forces"])]
+            p.forces_inc = [tuple(f) for f in flt(req["forcesInc"])]
+        else:
+            p.forces = flt(req["forces"])
+            p.forces_inc = flt(req["forcesInc"])
     else:                                  # through the public add_force API
         for f in flt(req["forces"]):
             p.add_force(*f, cte=True)
         for f in flt(req["forcesInc"]):
             p.add_force(*f, cte=False)
     inc = float(fr(req["inc"]))
+    asked = ([list(map(float, f)) for f in p.forces], [list(map(float, f)) for f in p.forces_inc])
+    untouched = lambda: (asked == ([list(map(float, f)) for f in p.forces], [list(map(float, f)) for f in p.forces_inc])
+                         and (tables is None or (np.array_equal(tables[0], np.array(asked[0]).reshape(-1, 5)) and
+                                                 np.array_equal(tables[1], np.array(asked[1]).reshape(-1, 5)))))
+    if req.get("pre"):                     # an earlier evaluation at another load factor must leave no trace
+        p.calc_fext(inc=float(fr(req["pre"])), silent=True)
     if q == "fext":
         k2 = {}
         if kw:
             k2 = dict(size=kw["size"], col0=kw["col0"])
         f = p.calc_fext(inc=inc, silent=True, **k2)
         f2 = p.calc_fext(inc=inc, silent=True, **k2)          # asking twice gives the same vector
-        return [[dyadic(v)] for v in np.asarray(f, dtype=float).ravel()], bool(np.array_equal(f, f2))
+        return [[dyadic(v)] for v in np.asarray(f, dtype=float).ravel()], bool(np.array_equal(f, f2) and untouched())
     # linear static analysis (all forces at full load: the linear analysis uses inc = 1), three public routes
     if route in (0, 1):
         cs = p.static(silent=True)
@@ -531,14 +556,25 @@ def observe_load(p, pd, req, kw):
         an = Analysis(calc_fext=p.calc_fext, calc_k0=p.calc_k0, calc_fint=p.calc_fint, calc_kT=p.calc_kT)
         incs, cs = an.static(NLgeom=False, silent=True)
     c = np.asarray(cs[0], dtype=float).ravel()
-    ok = (len(cs) == 1 and list(incs) == [1.0])
+    ok = (len(cs) == 1 and list(incs) == [1.0]) and untouched()
     return [[dyadic(v)] for v in c], bool(ok)
+
+
+def well_posed(pd):
+    """the static clause of C07 quantifies over supported panels: the stiffness restricted to the amplitudes that carry
+    any stiffness must be safely positive definite (no free rigid-body motion), else K c = f has no unique solution"""
+    K = build_panel(pd).calc_k0(silent=True).toarray()
+    nz = [i for i in range(len(K)) if np.abs(K[i]).sum() > 0]
+    if not nz:
+        return False
+    w = np.linalg.eigvalsh(K[np.ix_(nz, nz)])
+    return bool(w[0] > 1e-7 * w[-1])
 
 
 def jreq(r):
     out = dict(q=r["q"], size=r.get("size", 0), row0=r.get("row0", 0), col0=r.get("col0", 0))
     for k in ("N", "flow", "beta", "gamma", "aeromu", "c", "pts", "NL", "forces", "forcesInc", "inc", "cores", "num", "extra", "table",
-              "mach", "root", "rho", "V", "ainf", "via", "k0first", "taper", "route", "ctor", "nofin", "sweep", "dflt", "vialb"):
+              "mach", "root", "rho", "V", "ainf", "via", "k0first", "taper", "route", "ctor", "nofin", "sweep", "dflt", "vialb", "rows", "pre", "nok0", "lbstudy"):
         if k in r:
             out[k] = r[k]
     return out
@@ -674,6 +710,9 @@ def random_req(rng, pd, q):
             (r["forcesInc"] if rng.random() < 0.5 else r["forces"]).append(again)
         r["inc"] = rat(Fraction(rng.randint(1, 16), 8)) if q == "fext" else rat(1)
         r["route"] = rng.randint(0, 5)
+        r["rows"] = rng.choice(["list", "ndarray", "tuple"])
+        if rng.random() < 0.5:
+            r["pre"] = rat(Fraction(rng.randint(1, 24), 8))
         if q == "fext" and rng.random() < 0.3:
             off = rng.randint(1, 9)
             r.update(size=size + off + rng.randint(0, 5), row0=off, col0=off)
@@ -727,6 +766,12 @@ def run_prop(prop, qs, tier, seed, build, nrand_quick=40, nrand_thorough=600, wh
     if set(qs) & {"kA", "cA", "kAmach"}:   # the lattice aerodynamic cases also through a stiffener-less bay
         pairs += [(pd, dict(r, via="bay", k0first=(k % 2 == 0))) for k, (pd, r) in enumerate(pairs) if pd["model"] != "plate_w"]
         pairs += [(pd, dict(r, sweep=True)) for (pd, r) in pairs if r["q"] in ("kA", "kAmach") and not r.get("via")]
+    if "kGc" in qs:      # the state-based matrix asked through Panel.lb right after a change of the laminate on ONE object
+        for k, (pd, r) in enumerate(list(pairs)):
+            if r["q"] == "kGc" and not r["NL"]:
+                base = {kk: vv for kk, vv in r.items() if kk not in ("taper", "table", "size", "row0", "col0")}
+                for kind in (("stack", "offset", "ortho") if tier == "quick" and k % 2 else ("plyts", "material", "stack", "offset", "ortho")):
+                    pairs.append((pd, dict(base, vialb=True, lbstudy=kind)))
     if "static" in qs:   # the lattice load cases are also solved
         pairs += [(pd, dict(r, q="static", inc=rat(1), route=k % 6)) for k, (pd, r) in enumerate(pairs)
                   if r["q"] == "fext" and fr(r["inc"]) == 1]
@@ -779,18 +824,27 @@ def run_prop(prop, qs, tier, seed, build, nrand_quick=40, nrand_thorough=600, wh
         if k < len(pairs):
             if k % 3 == 1:
                 r["ctor"] = True
+            if r["q"] in ("fext", "static"):
+                r["rows"] = ("list", "ndarray", "tuple")[k % 3]
+                if k % 2 == 0:
+                    r["pre"] = rat(Fraction(3 + k % 5, 4))
             if k % 4 == 2 and r["q"] in ("k0", "kG0", "kM"):
                 r["nofin"] = True
-            if r["q"] in ("fint", "kT", "kGc"):
+            if r.get("lbstudy"):
+                r["sweep"] = r.pop("lbstudy")
+                r["extra"], r["dflt"], r["vialb"], r["study"] = [k % 2, 1], False, True, True
+            elif r["q"] in ("fint", "kT", "kGc"):
                 r["extra"] = [k % 3, 3 + (k % 2)]          # different orders along x and y
                 r["dflt"] = (k % 2 == 0)
                 if r["q"] == "kGc" and k % 3 == 0:
                     r["vialb"], r["dflt"] = True, False
                 if pd["n"] == 5:                            # exactly the exactness bound of each direction, by default
                     r["extra"], r["dflt"] = [0, 0], True
-            if k % 2 == 1 and r["q"] in STUDY_QS and not r.get("coff"):
+            if k % 2 == 1 and r["q"] in STUDY_QS and not r.get("coff") and not r.get("study"):
                 kinds = SWEEP_KINDS if r["q"] in ("k0", "kG0", "kM") else SWEEP_KINDS[:9]
                 r["sweep"] = kinds[(k // 2) % len(kinds)]
+        if r["q"] == "static" and not well_posed(pd):
+            r["q"] = "fext"            # unsupported panel: only the load vector is defined
         try:
             obs, ok = observe(pd, r, fresh_model=(k % 3 != 0))
         except Exception as ex:
@@ -880,6 +934,8 @@ def replay_file(prop, path, build):
         return 2
     pd, r = rp["pd"], rp["req"]
     kfs = open_deviations(prop)
+    if r["q"] == "static" and not well_posed(pd):
+        r = dict(r, q="fext")
     try:
         obs, ok = observe(pd, r)
     except Exception as ex:
